@@ -41,9 +41,11 @@ def run(ck):
     items = ["ok", "fail", "cancel_queued", "cancel_inflight"]
     for kind in KINDS:
         for i in range(12 if quick else 120):
-            hist = [rng.choice(items + (["cancel_between", "cancel_between"] if kind == "retry" else []))
+            hist = [rng.choice(items + ["xcancel"] + (["cancel_between", "cancel_between"] if kind == "retry" else []))
                     for _ in range(rng.choice([1, 2, 3]))]
-            tasks.append({"scen": "reclaim", "params": {"kind": kind, "mode": "refs", "hist": hist},
+            tasks.append({"scen": "reclaim", "params": {"kind": kind, "mode": "refs", "hist": hist,
+                                                       "poll_returns": "descs" if i % 2 else None,
+                                                       "poll_interval": 100.0 if i % 4 == 1 else 0.3},
                           "strat": ["random", rng.randrange(10 ** 9), 0.5], "gran": "sync",
                           "facts": {"kind": kind, "hist": "+".join(sorted(set(hist)))}})
     ck.run_and_validate(tasks, TRACE, nontrivial=lambda t, r: True)
